@@ -1,6 +1,6 @@
 SPECIFICATION Spec
 CONSTANTS
-  AKinds = {"def", "req", "one"}
+  AKinds = {"req", "one"}
   SKinds = {"plain", "opt", "listreq", "linkreq", "unc"}
   CKinds = {"def", "opt", "int+", "sec:req"}
   DKinds = {"-", "multi"}
